@@ -347,7 +347,7 @@ impl Scenario for C09 {
         let mut src = gen_source(rng, kind);
         // leading all-zero blocks: XorShiftRng redraws (one more call per block)
         if rng.chance(1, 3) {
-            let k = rng.range(1, 3) as usize;
+            let k = *rng.pick(&[1usize, 1, 2, 2, 3, 4, 7, 8, 9]);
             let mut p = vec![0u8; k * n.min(64)];
             p.extend_from_slice(&src.prefix);
             src.prefix = p;
